@@ -37,6 +37,28 @@ class Result:
         return dict(self.__dict__)
 
 
+def deliberate(ex):
+    """True iff the exception was raised by a `raise` statement (a refusal the code decided on), False if it escaped from an
+    operation that failed (unpacking, indexing, arithmetic, a failed assert ...): that is a crash, never a refusal.
+    Decided from the innermost traceback frame's source line."""
+    import linecache
+    tb = ex.__traceback__
+    if tb is None:
+        return True
+    while tb.tb_next is not None:
+        tb = tb.tb_next
+    line = linecache.getline(tb.tb_frame.f_code.co_filename, tb.tb_lineno).strip()
+    return line.startswith("raise ") or line == "raise"
+
+
+def crash_text(ex):
+    import traceback
+    tb = traceback.extract_tb(ex.__traceback__)
+    last = tb[-1] if tb else None
+    where = f"{last.filename.split('/ufl/')[-1]}:{last.lineno}: {last.line}" if last else "?"
+    return f"{type(ex).__name__}: {ex} (not raised by a raise statement: at {where})"
+
+
 def proved(backend, vcs=1, seconds=0.0, sample=None, detail=""):
     return Result("proved", backend, detail, vcs, seconds, sample)
 
